@@ -41,7 +41,8 @@ class BaseRequest:
         for err_cls in (err.__class__, except_class):
             out_err = errors_map.get(err_cls)
             if out_err:
-                err = out_err
+                # the mapped error is shared: do not let tracebacks pile up on it
+                err = out_err.with_traceback(None)
                 break
         raise err
 
